@@ -189,9 +189,10 @@ class PyKdebugParser:
         timestamp = f'{time_string:<27}'
         event_rep = colored(str(timestamp), 'green') if self.color else str(timestamp)
         if os_log.process:
-            process = self._format_process(os_log.thread_identifier)
+            # The column is padded before it is colored, the escape sequences do not count for its width.
+            process = f'{self._format_process(os_log.thread_identifier):<27}'
             process = colored(process, 'magenta') if self.color else process
-            event_rep += f' {process:<27} '
+            event_rep += f' {process} '
         event_rep += colored(os_log.composed_message, 'white') if self.color else os_log.composed_message
         return event_rep
 
